@@ -217,6 +217,8 @@ def fitted_world(sim, sc, out, sel=('A', 0), output_convolved=False, n_data_min=
     W = World(sc['world'])
     rng = random.Random(sc['theta_seed'])
     sc['theta'] = theta_for(W, rng, len(W.fspec), dmin=sc['drange'][0])
+    if sc.get('prelude'):
+        run_prelude(sim, sc, out, stages=('convolve', 'fit', 'consume'))
     d = W.write(sim.path('pkg'))
     r = call(convolve_model_dir, d, W.filters())
     if r[0] != 'ok':
@@ -235,3 +237,36 @@ def fitted_world(sim, sc, out, sel=('A', 0), output_convolved=False, n_data_min=
         out.discarded = 'setup-read:' + (exc_name(r) or 'empty')
         return None
     return W, d, outp, r[1][1]
+
+
+def run_prelude(sim, sc, out, stages=('convolve', 'fit', 'consume'), d=None, theta=None):
+    """History INSIDE a scenario: a previous package with the same layout, model names and filters (other numbers, other
+    extinction law, other parameter-row order) occupied the same directory and was run through the same stages in this
+    very process, leaving whatever process-level or on-disk state the code keeps. Failures here are not judged."""
+    import random
+    from .author import World, source_line, gen_source
+    from sedfitter import write_parameters, plot
+    P = sc['prelude']
+    Wp = World(P['world'])
+    d = d or sim.path('pkg')
+    Wp.write(d, fmt=P.get('fmt'))
+    out.probe('prelude_epoch')
+    sim.fired('prelude_epoch')
+    if 'convolve' in stages:
+        r = call(convolve_model_dir, d, Wp.filters())
+        if r[0] != 'ok':
+            return
+    if 'mono' in stages:
+        call(convolve_model_dir_monochromatic, d)
+    if 'fit' in stages:
+        rng = random.Random(P.get('seed', 1))
+        th = theta if theta is not None else sc.get('theta') or theta_for(Wp, rng, len(Wp.fspec), dmin=sc['drange'][0])
+        names = [f['name'] for f in Wp.fspec]
+        text = ''.join(source_line(gen_source(rng, len(names), 'old%d' % i, flags=(1,), min_fit=1)) + '\n' for i in range(2))
+        outp = sim.path('prelude.fitinfo')
+        r = call(fit, env.SimReader(sim, text, label='prelude'), names, np.array(th, float) * u.arcsec, d, outp, n_data_min=1,
+                 output_format=('A', 0), output_convolved=True, extinction_law=Wp.extinction(), av_range=list(sc['av_range']),
+                 distance_range=list(sc['drange']) * u.kpc)
+        if r[0] == 'ok' and 'consume' in stages:
+            call(write_parameters, outp, sim.path('prelude.txt'), select_format=('N', 2))
+            call(plot, outp, select_format=('N', 1))
